@@ -167,8 +167,16 @@ def install_bridge(ctx):
         sys.modules["vsim_bridge"] = mod
     mod.CTX = ctx
     mod.run_actor = run_actor
+    mod.note = _note
+    mod.canon = canon
     mod.sim_yield = _sim_yield  # (no closure over ctx: the module must not keep an old world alive)
     return mod
+
+
+def _note(*a):
+    """Called by generated remote source: record a plain-data note in the history."""
+    ctx = sys.modules["vsim_bridge"].CTX
+    ctx.rec(-5, 0, "note", tuple(a))
 
 
 def _sim_yield():
@@ -241,9 +249,14 @@ def _ch(table, label):
         raise NoChannel(f"no channel {label!r} in table") from None
 
 
+EXTRA_OPS = {}  # op kind -> fn(ctx, aid, oi, table, op): check-specific ops
+
+
 def do_op(ctx, aid, oi, table, op):
     s = ctx.s
     k = op[0]
+    if k in EXTRA_OPS:
+        return EXTRA_OPS[k](ctx, aid, oi, table, op)
     if k == "send":
         _ch(table, op[1]).send(mkitem(op[2], op[3]))
         return ("ok",)
